@@ -1,7 +1,7 @@
 (* C05 -- generated kerning applies the UFO kerning value to every pair, once.
    (theorems are added to this file as they are proved; see Kern/ModelProofs.v) *)
 From Coq Require Import QArith Qcanon.
-From U2F Require Import Base.Prelude Geometry.Model Kern.Model Kern.ModelProofs Kern.UfoProofs.
+From U2F Require Import Base.Prelude Geometry.Model Kern.Model Kern.ModelProofs Kern.UfoProofs Kern.Merge Kern.MergeProofs.
 Open Scope Qc_scope.
 
 Theorem C05_specific_pair_first_definition_wins : forall rules a b v,
@@ -79,3 +79,21 @@ Example C05_ufo_example :
   ufo_kern g1s g2s k [1%Z] [2%Z] = Q2Qc (-50) /\ ufo_kern g1s g2s k [1%Z] [3%Z] = Q2Qc 7.
 Proof. vm_compute. repeat split; reflexivity. Qed.
 Print Assumptions C05_ufo_example.
+
+(* ---- the script split (kernFeatureWriter.mergeScripts, transcribed in Kern/Merge.v) ---- *)
+(* for every list of script-set keys: the merged sets are pairwise disjoint, every non-empty key lies inside one
+   of them, and they hold nothing but input scripts *)
+Theorem C05_merged_script_sets : forall keys,
+  pairwise (merge_sets keys) /\
+  (forall k, In k keys -> k <> [] -> exists y, In y (merge_sets keys) /\ incl k y) /\
+  (forall y e, In y (merge_sets keys) -> In e y -> exists k, In k keys /\ In e k).
+Proof. exact merge_sets_spec. Qed.
+Print Assumptions C05_merged_script_sets.
+
+(* so the re-assignment never fails for a non-empty key and the merged set it picks contains the WHOLE key:
+   the pairs of a bucket end up in a lookup that carries every script of that bucket *)
+Theorem C05_bucket_lands_under_all_its_scripts : forall keys k,
+  In k keys -> k <> [] ->
+  exists z, find (fun z => intersects z k) (merge_sets keys) = Some z /\ incl k z.
+Proof. exact assignment_total_and_whole. Qed.
+Print Assumptions C05_bucket_lands_under_all_its_scripts.
